@@ -754,6 +754,12 @@ func ruleRetryLoopExits(c *Ctx, r *Rule) {
 					found = true
 				}
 			}
+			// or the object is made in this function by the library's constructor, which resets it
+			if call, isCall := stripConv(nx.Common().Args[0]).(*ssa.Call); isCall && !found {
+				if f := call.Call.StaticCallee(); f != nil && strings.HasPrefix(f.Name(), "New") && f.Pkg != nil && strings.Contains(f.Pkg.Pkg.Path(), "backoff") && instrDominates(call, nx) {
+					found = true
+				}
+			}
 			if !found {
 				okReset = false
 			}
